@@ -115,8 +115,10 @@ PROPS = {
         'notes': ['full statement refuted (C01_full_statement_refuted: a kernel-checked forking run with one Byzantine member out of four); the same script forks the real nodes on every run of this check (KNOWN-FINDING KF-1)'],
     },
     'C03': {
-        'engines': [{'name': 'world', 'quick_args': ['-n', '60'], 'thorough_args': ['-n', '1200']}, {'name': 'vbc', 'quick_args': ['-n', '1500'], 'thorough_args': ['-n', '20000']}],
-        'corr_modules': ['Term', 'VBC'],
+        'engines': [{'name': 'world', 'quick_args': ['-n', '60'], 'thorough_args': ['-n', '1200']}, {'name': 'vbc', 'quick_args': ['-n', '1500'], 'thorough_args': ['-n', '20000']}, {'name': 'filter'}],
+        # the proof's reference takes its instance id from a stored COMMIT: that every stored COMMIT is of this instance is the raw filter's guarantee (C17)
+        'also_report': ('C17',),
+        'corr_modules': ['Term', 'VBC', 'Filter'],
         'trusted_base': ['theorems in coq/props/C03.v about coq/theories/Term.v and VBC.v (proofs in Cert.v, Own.v, TermFacts.v)'],
         'assumptions': COMMON_ASSUME + ['signature verification is a function of (signed bytes, signer): a peer with the same key material computes the same flags as the committer',
                                         'the aggregated random-seed signature of verified shares verifies (key manager contract; the model\'s seed flag of the callback is true)',
@@ -124,6 +126,8 @@ PROPS = {
     },
     'C04': {
         'engines': [{'name': 'world', 'quick_args': ['-n', '60'], 'thorough_args': ['-n', '1200']}],
+        # a lock that lets a receiver skip ValidateBlockProposal must be a genuine prepared proof: the reference predicate for accepted messages is C08's
+        'also_report': ('C08',),
         'corr_modules': ['Term'],
         'trusted_base': ['theorems in coq/props/C04.v about coq/theories/World.v (proofs in World.v, Own.v, TermFacts.v)'],
         'assumptions': COMMON_ASSUME + ['unforgeability discipline, common committee and instance, Byzantine weight <= f (as C01); no hypothesis about standalone PREPREPAREs',
